@@ -499,6 +499,18 @@ def replay(ctx, case):
                 return          # empty chunks / invalid input: outside the property's quantifier, only the faithful model applies
         ctx.compare([case], exp, got, THEOREM, describe=describe)
         return
+    if kind == 'pair':
+        two = []
+        for key in ('pieces_a', 'pieces_b'):
+            c1 = {k: case.get(k) for k in KEYS}
+            c1.update(kind='bulk', data=[b for p in case[key] for b in p])
+            two.append(c1)
+        tabs, have = tables_for(two)
+        exp, _a, _m = bulk_expected(two, tabs)
+        got = lib.run_impl_js('c20', [case], shards=1)
+        ctx.count(2)
+        ctx.compare([case], [exp], got, THEOREM)
+        return
     if kind == 'file':
         tabs, have = tables_for([case])
         exp, args, model = bulk_expected([case], tabs)
